@@ -695,12 +695,7 @@ func (x *Exec) classifyBase(s *State, fr *Frame, v ssa.Value, m *modSet, blocks 
 // enterLoopHeader is called when control reaches a loop header. Returns false if the path ends here.
 func (x *Exec) enterLoopHeader(s *State, fr *Frame, lp *loop, from *ssa.BasicBlock) bool {
 	backEdge := lp.body[from]
-	var lspec *LoopSpec
-	if fr.fn == x.top {
-		lspec = x.spec.Loops[lp.ordinal]
-	} else if sp := x.w.FuncSpecs[fnKey(fr.fn)]; sp != nil {
-		lspec = sp.Loops[lp.ordinal]
-	}
+	lspec := x.loopSpecFor(s, fr, lp)
 	// complete unrolling when the loop test is concrete on this path
 	if n, unrolling := fr.unroll[lp.header]; unrolling || (!fr.cut[lp.header] && !backEdge && x.concreteTest(s, fr, lp)) {
 		if n > 64 {
@@ -849,9 +844,37 @@ func (x *Exec) loopCtx(s *State, fr *Frame, lp *loop) *EvalCtx {
 		}
 	}
 	sort.SliceStable(outer, func(i, j int) bool { return len(outer[i].body) < len(outer[j].body) })
-	for k, o := range outer {
+	nOuter := 0
+	for _, o := range outer {
 		if c, ok := fr.cells[o.rangeIdx]; ok {
-			env[fmt.Sprintf("$i%d", k+1)] = Value{T: types.Typ[types.Int], Term: s.cellVal[c].Term}
+			nOuter++
+			env[fmt.Sprintf("$i%d", nOuter)] = Value{T: types.Typ[types.Int], Term: s.cellVal[c].Term}
+		}
+	}
+	// inside an inlined helper: continue with the range loops of the callers that enclose the call
+	idx := -1
+	for i, f := range s.frames {
+		if f == fr {
+			idx = i
+		}
+	}
+	for j := idx - 1; j >= 0; j-- {
+		cf := s.frames[j]
+		if cf.block == nil {
+			continue
+		}
+		var enc []*loop
+		for _, o := range x.loopsOf(cf.fn).loops {
+			if o.body[cf.block] && o.rangeIdx != nil {
+				enc = append(enc, o)
+			}
+		}
+		sort.SliceStable(enc, func(a, b int) bool { return len(enc[a].body) < len(enc[b].body) })
+		for _, o := range enc {
+			if c, ok := cf.cells[o.rangeIdx]; ok {
+				nOuter++
+				env[fmt.Sprintf("$i%d", nOuter)] = Value{T: types.Typ[types.Int], Term: s.cellVal[c].Term}
+			}
 		}
 	}
 	return &EvalCtx{x: x, st: s, old: x.entry, env: env, sf: funcHome[x.spec], fr: fr, pos: x.loopPos(lp)}
@@ -917,4 +940,79 @@ func (x *Exec) bindable(ctx *EvalCtx, e SExpr) (msg string, ok bool) {
 	}()
 	x.eval(ctx, e)
 	return "", true
+}
+
+// loopSpecFor assigns a `loop n` block of the contract to a loop of the code. Normally that is the block with the
+// loop's ordinal. When the code was restructured (a loop moved into a helper that is inlined, a loop added or
+// removed before it) the block whose invariants bind best at this loop is taken instead, and a block is claimed by one
+// loop only. The choice is made once per loop. It cannot make a proof unsound: invariants are proved before they
+// are assumed.
+func (x *Exec) loopSpecFor(s *State, fr *Frame, lp *loop) *LoopSpec {
+	if sp, ok := x.loopClaim[lp.header]; ok {
+		return sp
+	}
+	var specs map[int]*LoopSpec
+	own := false
+	switch {
+	case fr.fn == x.top:
+		specs, own = x.spec.Loops, true
+	case x.w.FuncSpecs[fnKey(fr.fn)] != nil:
+		specs, own = x.w.FuncSpecs[fnKey(fr.fn)].Loops, true
+	default:
+		specs = x.spec.Loops // a contract-less helper inlined into the function under contract
+	}
+	claimedBy := func(sp *LoopSpec) bool {
+		for h, c := range x.loopClaim {
+			if c == sp && h != lp.header {
+				return true
+			}
+		}
+		return false
+	}
+	score := func(sp *LoopSpec) (bound, total int) {
+		ctx := x.loopCtx(s, fr, lp)
+		for _, c := range sp.Invariants {
+			total++
+			if _, ok := x.bindable(ctx, c.Expr); ok {
+				bound++
+			}
+		}
+		return
+	}
+	var best *LoopSpec
+	if own {
+		if sp := specs[lp.ordinal]; sp != nil && !claimedBy(sp) {
+			if b, t := score(sp); b == t {
+				best = sp
+			}
+		}
+	}
+	if best == nil {
+		bestNum, bestDen := 0, 1
+		var ords []int
+		for o := range specs {
+			ords = append(ords, o)
+		}
+		sort.Ints(ords)
+		for _, o := range ords {
+			sp := specs[o]
+			if claimedBy(sp) || len(sp.Invariants) == 0 {
+				continue
+			}
+			b, t := score(sp)
+			if b > 0 && b*bestDen > bestNum*t {
+				best, bestNum, bestDen = sp, b, t
+			}
+		}
+		if best == nil && own {
+			if sp := specs[lp.ordinal]; sp != nil && !claimedBy(sp) {
+				best = sp // e.g. an `unroll` block without invariants
+			}
+		}
+		if best != nil && !(own && specs[lp.ordinal] == best) {
+			x.rebound[fmt.Sprintf("contract block 'loop %d' applied to loop %d of %s (the code was restructured)", best.Ordinal, lp.ordinal, shortFn(fnKey(fr.fn)))] = true
+		}
+	}
+	x.loopClaim[lp.header] = best
+	return best
 }
